@@ -145,6 +145,10 @@ def arg_value(trait, alt, val):
     raise Unsupported('format trait ' + trait)
 
 
+class TextDefect(Exception):
+    """the printed text is decodable but structurally cannot denote the fields (e.g. radix prefix and rendering disagree)"""
+
+
 def parse_operand_text(toks):
     """documented operand grammar applied to a token sequence: returns (mnemonic parts, [operands]) with operands as
     ('reg', v) | ('int', v) | ('mem', reg, off); sign characters apply by (wrapping) negation"""
@@ -160,6 +164,9 @@ def parse_operand_text(toks):
     def num(j):
         sign = 1
         if j < n and items[j] in ('+', '-'): sign = -1 if items[j] == '-' else 1; j += 1
+        if j + 2 < n and items[j] == '0' and items[j + 1] == 'x' and not isinstance(items[j + 2], str):
+            tr = items[j + 2][1]
+            raise TextDefect('a literal "0x" prefix is followed by an argument rendered with ' + ('Display (decimal digits)' if tr == 'new_display' else tr) + ': the grammar reads those digits in radix 16')
         if j >= n or isinstance(items[j], str): raise Unsupported('operand text: number expected')
         v = arg_value(*items[j][1:])
         if isinstance(v, tuple): v = v[1]
